@@ -134,6 +134,16 @@ func (pc *pathCtx) def(sort, expr string) string {
 	return n
 }
 
+// defAtom always returns an atomic name for the term.
+func (pc *pathCtx) defAtom(sort, expr string) string {
+	if !strings.ContainsAny(expr, " (") {
+		return expr
+	}
+	n := pc.fresh_("t")
+	pc.solver.Send("(define-fun " + n + " () " + sort + " " + expr + ")")
+	return n
+}
+
 func (pc *pathCtx) declare(name, sort string) {
 	pc.solver.Send("(declare-const " + name + " " + sort + ")")
 }
